@@ -16,16 +16,24 @@ if [ -n "$VERIF_REPO" ]; then
   cp harness/go.sum "${mf%.mod}.sum"
   modflag="-modfile=$mf"
 fi
-cleanup() { rm -f "$here/$bin" "$here/bin/go.$$.mod" "$here/bin/go.$$.sum"; }
+cleanup() { rm -f "$here/$bin" "$here/bin/go.$$.mod" "$here/bin/go.$$.sum"; [ -n "$rbin" ] && rm -f "$here/$rbin"; }
 if [ "$1" = "--build" ]; then
-  (cd harness && go build $modflag -tags verif -o ../bin/vcheck ./cmd/vcheck) || exit 2
-  bin=""; cleanup; exit 0
+  (cd harness && go build $modflag -tags verif -o ../bin/vcheck ./cmd/vcheck && go build $modflag -race -tags verif -o ../bin/vcheck.race ./cmd/vcheck) || exit 2
+  bin=""; rbin=""; cleanup; exit 0
 fi
 prop="$1"; shift
 tier="${1:-${VERIF_TIER:-quick}}"
 bin="bin/vcheck.$prop.$$"
 trap cleanup EXIT
 (cd harness && go build $modflag -tags verif -o "../$bin" ./cmd/vcheck) || { echo "INCONCLUSIVE build failed"; exit 2; }
+# race tier: the checks with concurrent code under test also run a workload in a binary built with -race
+case "$prop" in C02|C10|C16|C20)
+  if [ "${VERIF_RACE:-1}" != "0" ]; then
+    rbin="bin/vcheck.race.$prop.$$"
+    (cd harness && go build $modflag -race -tags verif -o "../$rbin" ./cmd/vcheck) || { echo "INCONCLUSIVE race build failed"; exit 2; }
+    export VCHECK_RACE_BIN="$here/$rbin"
+  fi;;
+esac
 if [ "$tier" = "--replay" ]; then
   "./$bin" -prop "$prop" -replay "$2"
 else
